@@ -79,20 +79,28 @@ class BoundedContract(object):
             for i, c in self.my_cases():
                 n += 1
                 try:
-                    with case_time_limit(self.CASE_SECONDS):
-                        r = self.check(c)
-                except CaseTimeout:
-                    r = (False, "does not terminate within %ds" % self.CASE_SECONDS, True)
-                    timeouts += 1
-                    if timeouts >= 3:
-                        # a non-terminating change fails many cases the same way: report the first ones and stop this chunk
-                        res["obligations"] += 1
-                        res["refuted"].append({"obligation": "%s/case%d" % (self.base_id, i), "model": {"index": i, "case": self.show(c)},
-                                               "backend": "runtime", "replay": {"status": "fails", "detail": r[1]}, "goal": r[1],
-                                               "pc": []})
-                        break
+                    try:
+                        with case_time_limit(self.CASE_SECONDS):
+                            r = self.check(c)
+                    except CaseTimeout:
+                        # a loaded machine must not turn into an alarm: the case gets a second attempt with six times the
+                        # budget before it is reported as not terminating
+                        try:
+                            with case_time_limit(6 * self.CASE_SECONDS):
+                                r = self.check(c)
+                        except CaseTimeout:
+                            r = (False, "does not terminate within %ds (nor within %ds on a second attempt)" % (
+                                self.CASE_SECONDS, 6 * self.CASE_SECONDS), True)
+                            timeouts += 1
                 except Exception as e:      # noqa -- an exception escaping the contract wrapper is a failed case
                     r = (False, "raises %s: %s" % (type(e).__name__, str(e)[:200]), True)
+                if not r[0] and r[1].startswith("does not terminate within") and timeouts >= 3:
+                    # a non-terminating change fails many cases the same way: report the first ones and stop this chunk
+                    res["obligations"] += 1
+                    res["refuted"].append({"obligation": "%s/case%d" % (self.base_id, i), "model": {"index": i, "case": self.show(c)},
+                                           "backend": "runtime", "replay": {"status": "fails", "detail": r[1]}, "goal": r[1],
+                                           "pc": []})
+                    break
                 ok, why = r[0], r[1]
                 if len(r) > 2 and r[2]:
                     nontrivial += 1
